@@ -77,7 +77,8 @@ filt('LevelFilter', [('ref', 'truthy(result) == ('
                       ' and (self._depth == 0 or url_table_record.level <= self._depth + (2 if truthy(url_table_record.inline_level) else 0)))')],
      requires=['self._depth >= 0', 'implies(self._inline_max_depth is not None, self._inline_max_depth >= 0)'],
      observe=['self._depth', 'self._inline_max_depth'])
-filt('TriesFilter', [('ref', 'truthy(result) == (not truthy(self._tries) or url_table_record.try_count < self._tries)')], observe=['self._tries'])
+_tf = filt('TriesFilter', [('ref', 'truthy(result) == (not truthy(self._tries) or url_table_record.try_count < self._tries)')], observe=['self._tries'])
+_tf.props = {'C02', 'C18'}          # the tries limit of C18 is this filter, consulted afresh for every check-out
 
 # ---- url.py predicates used by ParentFilter / DirectoryFilter -------------------------------------------------
 Contract('wpull/url.py', 'schemes_similar', {'scheme1': TStr(), 'scheme2': TStr()}, ret=TBool(), prop='C02',
@@ -132,7 +133,7 @@ Assumed(F_, 'BaseURLFilter.test', {'self': TObj('BaseURLFilter'), 'url_info': TO
 INFO = TRec(verdict=TBool(), passed=TSet(TObj('BaseURLFilter')), failed=TSet(TObj('BaseURLFilter')), map=TDict(TStr(), TOpt(TBool())))
 F = 'self._url_filters'
 UNIQ = lambda L: 'forall(0, len(%s), lambda a: forall(0, len(%s), lambda b: implies(a != b, cls_name(%s[a]) != cls_name(%s[b]))))' % (L, L, L, L)
-Contract(F_, 'DemuxURLFilter.test_info', P('DemuxURLFilter'), ret=INFO, prop='C02',
+Contract(F_, 'DemuxURLFilter.test_info', P('DemuxURLFilter'), ret=INFO, prop='C02/C18',
     locals={'passed': TSet(TObj('BaseURLFilter')), 'failed': TSet(TObj('BaseURLFilter')), 'test_dict': TDict(TStr(), TOpt(TBool()))},
     requires=[UNIQ(F)],
     loops={0: {'invariant': [
